@@ -58,6 +58,10 @@ func runC16(c *Ctx) {
 	c16DialTimerPending(c, "C16.O11")
 	c.Rule("C16.O12", "E4", "the write deadline the Upgrader arms for the handshake answer is cleared on every successful return of commResponse: on a connection whose writes do not clear it themselves (blocking mode, std net.Conn) it would fail every write after HandshakeTimeout", 1)
 	c16HandshakeDeadline(c)
+	c.Rule("C16.O13", "E4", "creating or renewing a deadline timer does not depend on the write queue: no AfterFunc / Reset site of SetDeadline, SetReadDeadline, SetWriteDeadline or setDeadline sits behind a queue test (a renewed deadline must postpone an armed timer whether or not a backlog exists)", 2)
+	c.Rule("C16.O14", "E4", "ClientConn.onResponse: with no request left the read deadline is set on both edges of IdleConnTimeout > 0 (idle timeout, or cleared: the answered request's deadline must not survive); the next pipelined request's deadline is armed only on the Timeout > 0 edge (with no timeout configured there is no deadline to arm, and the send time itself is already in the past)", 2)
+	c.Rule("C16.O15", "E4", "the WebSocket keep-alive is renewed by every message: the renewal in handleWsMessage is guarded by KeepaliveTime > 0 and by nothing that depends on the clock or on earlier renewals", 1)
+	c16Round5(c)
 	c.Rule("C16.O6", "E5,E4", "keep-alive renewal sites exist and pass time.Now().Add(<engine>.KeepaliveTime)", 7)
 
 	L := c.Locks()
@@ -792,4 +796,108 @@ func c16HandshakeDeadline(c *Ctx) {
 		}
 	}
 	c.Cond(bad == "", "C16.O12", key, c.Pos(arms[0]), "every successful return passes SetWriteDeadline(zero)", bad)
+}
+
+// c16Round5: O13, O14, O15.
+func c16Round5(c *Ctx) {
+	// O13
+	for _, name := range []string{"(*nbio.Conn).SetDeadline", "(*nbio.Conn).setDeadline", "(*nbio.Conn).SetReadDeadline", "(*nbio.Conn).SetWriteDeadline"} {
+		fn := c.P.Func(name)
+		if fn == nil {
+			continue
+		}
+		fi := c.P.Info(fn)
+		n := 0
+		bad := ""
+		for _, cs := range c.P.Calls(fn, func(nm string, _ ir.CallSite) bool {
+			return nm == "(*timer.Timer).AfterFunc" || nm == "(*time.Timer).Reset"
+		}) {
+			n++
+			if fi.HasFact(cs.In, func(ft ir.Fact) bool { _, ok := c.queueTest(ft); return ok }) {
+				bad = "the timer is created / renewed at " + c.Pos(cs.In) + " only for some state of the write queue: renewing a deadline while nothing is queued leaves the old timer armed, and it closes the connection at the old deadline"
+			}
+		}
+		if n > 0 {
+			c.Cond(bad == "", "C16.O13", fnKey(c.P, fn, "timer sites independent of the queue"), c.FnPos(fn), fmt.Sprintf("%d create/renew site(s)", n), bad)
+		}
+	}
+	// O14
+	if fn := c.Fn("C16.O14", "(*nbhttp.ClientConn).onResponse"); fn != nil {
+		fi := c.P.Info(fn)
+		var renew, clear int
+		badNext := ""
+		for _, cs := range c.P.Calls(fn, func(name string, _ ir.CallSite) bool { return strings.HasSuffix(name, ".SetReadDeadline") }) {
+			arg := cs.Common.Args[len(cs.Common.Args)-1]
+			idleKnown, idlePos := false, false
+			toKnown, toPos := false, false
+			for _, ft := range fi.Facts(cs.In) {
+				cmp, ok := ir.DecodeIntCmp(ft.Cond)
+				if !ok {
+					continue
+				}
+				pos := cmp.Holds(1) == ft.Truth && cmp.Holds(0) != ft.Truth
+				switch {
+				case strings.HasSuffix(c.P.LoadedField(cmp.Expr), ".IdleConnTimeout"):
+					idleKnown, idlePos = true, pos
+				case strings.HasSuffix(c.P.LoadedField(cmp.Expr), ".Timeout") || strings.HasSuffix(c.P.Desc(ir.Resolve(cmp.Expr)), ".Timeout"):
+					toKnown, toPos = true, pos
+				}
+			}
+			_, isZero := ir.Resolve(arg).(*ssa.Const)
+			switch {
+			case idleKnown && idlePos && !isZero:
+				renew++
+			case idleKnown && !idlePos && isZero:
+				clear++
+			case !idleKnown && !isZero:
+				// the next pipelined request's deadline
+				if !toKnown || !toPos {
+					badNext = "the next request's read deadline is armed at " + c.Pos(cs.In) + " off the Timeout > 0 edge: with no timeout configured the deadline is the request's send time, which is already past, so the connection is closed with a read timeout and every pipelined request behind the first fails"
+				}
+			}
+		}
+		bad := ""
+		switch {
+		case renew == 0:
+			bad = "with no request left the idle timeout is not armed on the IdleConnTimeout > 0 edge"
+		case clear == 0:
+			bad = "with no request left and no idle timeout configured the read deadline is not cleared: the deadline of the request that was just answered stays armed and closes the idle keep-alive connection"
+		}
+		c.Cond(bad == "", "C16.O14", fnKey(c.P, fn, "idle edge: both sides of IdleConnTimeout"), c.FnPos(fn), fmt.Sprintf("%d renew, %d clear", renew, clear), bad)
+		c.Cond(badNext == "", "C16.O14", fnKey(c.P, fn, "next request's deadline only with a Timeout"), c.FnPos(fn), "armed on the Timeout > 0 edge only", badNext)
+	}
+	// O15
+	if fn := c.Fn("C16.O15", "(*websocket.Conn).handleWsMessage"); fn != nil {
+		fi := c.P.Info(fn)
+		bad := "no keep-alive renewal found"
+		for _, g := range ir.WithClosures(fn) {
+			for _, cs := range c.P.Calls(g, func(name string, _ ir.CallSite) bool { return strings.HasSuffix(name, ".SetReadDeadline") }) {
+				// the renewal, or the defer that registers its closure
+				var at ssa.Instruction = cs.In
+				if g != fn {
+					for _, b := range fn.Blocks {
+						for _, in := range b.Instrs {
+							if d, ok := in.(*ssa.Defer); ok {
+								if mc, ok := d.Call.Value.(*ssa.MakeClosure); ok && mc.Fn == ssa.Value(g) {
+									at = in
+								}
+							}
+						}
+					}
+				}
+				bad = ""
+				for _, ft := range fi.Facts(at) {
+					if at.Parent() != fn {
+						continue
+					}
+					cmp, ok := ir.DecodeIntCmp(ft.Cond)
+					if ok && strings.HasSuffix(c.P.LoadedField(cmp.Expr), ".KeepaliveTime") {
+						continue
+					}
+					bad = "the keep-alive renewal (" + c.Pos(at) + ") also depends on " + c.P.Desc(ft.Cond) + ": a message that arrives while that condition fails does not postpone the deadline, and the connection is closed earlier than KeepaliveTime after its last message"
+				}
+			}
+		}
+		c.Cond(bad == "", "C16.O15", fnKey(c.P, fn, "renewed by every message"), c.FnPos(fn), "guarded by KeepaliveTime > 0 only", bad)
+	}
 }
